@@ -372,15 +372,22 @@ func (u *Unit) strEq(st *State, xv, yv ssa.Value, a, b Term) Term {
 }
 
 func (u *Unit) strEqLit(a Term, lit string) Term {
-	cs := []Term{eq(app("slen", SInt, a), intLit(int64(len(lit))))}
 	if len(lit) == 0 {
 		// all empty strings are the same value
-		return cs[0]
+		return eq(app("slen", SInt, a), intLit(0))
 	}
+	if len(lit) > 64 {
+		return eq(a, u.strLit(lit))
+	}
+	// s == "lit" is the atom seq(s, lit); one axiom per literal ties it to the content of s, the
+	// general seq axiom ties it to SMT equality (so table lookups and byte-wise reasoning agree).
+	l := u.strLit(lit)
+	cs := []string{fmt.Sprintf("(= (slen s) %d)", len(lit))}
 	for i := 0; i < len(lit); i++ {
-		cs = append(cs, eq(app("sat", SInt, a, intLit(int64(i))), intLit(int64(lit[i]))))
+		cs = append(cs, fmt.Sprintf("(= (sat s %d) %d)", i, lit[i]))
 	}
-	return and(cs...)
+	u.pre.axiomFor("(seq ", fmt.Sprintf("(forall ((s Str)) (! (= (seq s %s) (and %s)) :pattern ((seq s %s))))", l.S, strings.Join(cs, " "), l.S))
+	return app("seq", SBool, a, l)
 }
 
 // strEqTerms is SMT equality plus the extensionality instance for this pair.
@@ -424,6 +431,11 @@ func (u *Unit) execUnOp(st *State, x *ssa.UnOp) {
 		st.assume(u.typeFacts(v, x.Type()))
 		u.knownRef(st, v, x.Type())
 		st.vals[x] = v
+		if g, ok := x.X.(*ssa.Global); ok {
+			if _, isMap := x.Type().Underlying().(*types.Map); isMap {
+				u.assumeTable(st, g, v)
+			}
+		}
 	case token.NOT:
 		r := not(u.val(st, x.X))
 		r.T = x.Type()
